@@ -50,6 +50,12 @@ def source(ident, rules, positions):
             out.append(f'#[typeshare]\n#[serde(rename_all = "{r}")]\npub struct S{i} {{ pub {rust_ident(ident)}: u32 }}\n')
             if raw:
                 out.append(f'#[typeshare]\n#[serde(rename_all = "{r}")]\npub struct R{i} {{ pub r#{ident}: u32 }}\n')
+            # MC_C16!FieldContexts: the field of a struct variant - rule on the variant; rule as the enum's rename_all_fields;
+            # rule on the variant while the enum's rename_all (variants only) and rename_all_fields say something else
+            other = "UPPERCASE" if r != "UPPERCASE" else "lowercase"
+            out.append(f'#[typeshare]\n#[serde(tag = "t", content = "c")]\npub enum V{i} {{ U, #[serde(rename_all = "{r}")] Sv {{ {rust_ident(ident)}: u32 }} }}\n')
+            out.append(f'#[typeshare]\n#[serde(tag = "t", content = "c", rename_all_fields = "{r}")]\npub enum W{i} {{ U, Sv {{ {rust_ident(ident)}: u32 }} }}\n')
+            out.append(f'#[typeshare]\n#[serde(tag = "t", content = "c", rename_all = "{other}", rename_all_fields = "{other}")]\npub enum X{i} {{ U, #[serde(rename_all = "{r}")] Sv {{ {rust_ident(ident)}: u32 }} }}\n')
         if "variant" in positions:
             out.append(f'#[typeshare]\n#[serde(rename_all = "{r}")]\npub enum E{i} {{ {rust_ident(ident)} }}\n')
             if raw:
@@ -66,7 +72,13 @@ def observe(res, rules):
         obs[("field" + ("+raw" if s["id"]["original"][0] == "R" else ""), rules[i])] = s["fields"][0]["id"]["renamed"]
     for e in pd.get("enums", []):
         i = int(e["id"]["original"][1:])
-        obs[("variant" + ("+raw" if e["id"]["original"][0] == "Q" else ""), rules[i])] = e["variants"][0]["id"]["renamed"]
+        k = e["id"]["original"][0]
+        if k in "VWX":
+            sv = [v for v in e["variants"] if v.get("fields")]
+            if sv:
+                obs[("field+" + {"V": "variant-rule", "W": "enum-fields-rule", "X": "variant-rule-over-enum-rules"}[k], rules[i])] = sv[0]["fields"][0]["id"]["renamed"]
+            continue
+        obs[("variant" + ("+raw" if k == "Q" else ""), rules[i])] = e["variants"][0]["id"]["renamed"]
     return obs
 
 
@@ -155,6 +167,12 @@ def run_idents(chk, cases, predict=None):
                     plain_bad = panicked or obs.get((pos, r)) != exp[pos][r]
                     judge_one(chk, ident, pos if plain_bad else pos + "+raw", r, exp[pos][r], obs[(pos + "+raw", r)], False)
                     events.append({"pos": pos, "rule": r, "ident": toks(ident), "panic": False, "obs": toks(obs[(pos + "+raw", r)]), "raw": True})
+                if pos == "field":
+                    for ctx in ("variant-rule", "enum-fields-rule", "variant-rule-over-enum-rules"):
+                        if ("field+" + ctx, r) in obs:
+                            plain_bad = panicked or obs.get((pos, r)) != exp[pos][r]
+                            judge_one(chk, ident, pos if plain_bad else pos + "+" + ctx, r, exp[pos][r], obs[("field+" + ctx, r)], False)
+                            events.append({"pos": pos, "rule": r, "ident": toks(ident), "panic": False, "obs": toks(obs[("field+" + ctx, r)]), "ctx": ctx})
                 o = obs.get((pos, r))
                 judge_one(chk, ident, pos, r, exp[pos][r], o, panicked)
                 p = (predict or {}).get(ident, {}).get(pos, {}).get(r)
